@@ -3,6 +3,7 @@ package validator
 import (
 	"bytes"
 	"reflect"
+	"sort"
 	"strings"
 
 	jbytes "github.com/jsightapi/jsight-schema-go-library/bytes"
@@ -140,6 +141,8 @@ func (v objectValidator) requiredKeysString() string {
 	for k := range v.requiredKeys {
 		keys = append(keys, k)
 	}
+	// The same document gives the same message.
+	sort.Strings(keys)
 	return strings.Join(keys, ", ")
 }
 
